@@ -290,11 +290,10 @@ func (state inSession) processReject(session *session, msg *Message, rej Message
 	case targetTooHigh:
 
 		var nextState resendState
-		switch currentState := session.State.(type) {
-		case resendState:
+		if currentState, ok := session.currentResendState(); ok {
 			// Assumes target too high reject already sent.
 			nextState = currentState
-		default:
+		} else {
 			var err error
 			if nextState, err = session.doTargetTooHigh(TypedError); err != nil {
 				return handleStateError(session, err)
